@@ -296,3 +296,29 @@ Example d_one_of_two_sleepers_woken :
   d_back s = 0 /\ d_pc (d_thr s 3%nat) = DWWoken /\ d_pc (d_thr s 4%nat) = DWAsleep.
 Proof. vm_compute. repeat split; reflexivity. Qed.
 
+
+(* the progress measure behind "notify_one suffices": the notify of a read wakes ONE sleeping
+   writer whenever there is one -- the number of writers asleep on cv_not_full decreases by one
+   with each completed read *)
+Lemma d_read_wakes_one s t ch s' l :
+  (t < d_n s)%nat -> d_pc (d_thr s t) = DRSig -> dstep s t ch = Some (s', l) ->
+  let asleep := fun (x : dthread) => match d_pc x with DWAsleep => true | _ => false end in
+  (0 < tcount asleep (d_thr s) (d_n s))%nat ->
+  (tcount asleep (d_thr s') (d_n s') + 1 = tcount asleep (d_thr s) (d_n s))%nat.
+Proof.
+  intros Ht Epc Hs asleep Hpos. unfold dstep in Hs.
+  apply Nat.leb_gt in Ht. rewrite Ht, Epc in Hs. cbv zeta in Hs. apply Nat.leb_gt in Ht.
+  destruct (pick_waiter (d_wasleep s) (d_n s) ch) as [u|] eqn:Ep; inv_some Hs.
+  - destruct (pick_waiter_some _ _ _ _ Ep) as [Hu Hw]. apply d_wasleep_pc in Hw.
+    assert (Hne : u <> t) by (intros ->; congruence).
+    unfold dset; cbn [d_thr d_n].
+    pose proof (tcount_upd2 asleep (d_thr s) u (dpcset (d_thr s u) DWWoken) t (dpcset (d_thr s t) DRSeg2) (d_n s) Hu Ht Hne) as X.
+    assert (A1 : asleep (d_thr s u) = true) by (unfold asleep; rewrite Hw; reflexivity).
+    assert (A2 : asleep (d_thr s t) = false) by (unfold asleep; rewrite Epc; reflexivity).
+    assert (A3 : asleep (dpcset (d_thr s u) DWWoken) = false) by reflexivity.
+    assert (A4 : asleep (dpcset (d_thr s t) DRSeg2) = false) by reflexivity.
+    rewrite A1, A2, A3, A4 in X. unfold b2n in X. lia.
+  - exfalso. destruct (tcount_pos_inv asleep (d_thr s) (d_n s) Hpos) as (w & Hw & Ew).
+    pose proof (pick_waiter_none _ _ _ Ep w Hw) as X. unfold d_wasleep in X. unfold asleep in Ew.
+    destruct (d_pc (d_thr s w)); congruence.
+Qed.
